@@ -332,6 +332,7 @@ Verdict prop(Tape& t, Run& run) {
 		o.mesh.minTris = 1;
 		o.mesh.duplicateTriangleSometimes = true; // an exact duplicate is one more triangle of the set to keep
 		o.mesh.allowUnusedVerts = t.chance(48);
+		o.stripVariants = true; // strips that begin with a degenerate triangle / stitched strips
 		o.allowLockedNorm = false;
 		o.maxBones = 6;
 		o.everyVertexWeighted = !t.chance(40); // sometimes skins with unweighted vertices / no weights at all
@@ -464,6 +465,29 @@ Verdict prop(Tape& t, Run& run) {
 		run.cls("positions-edited-before-conversion");
 	}
 	std::vector<ShapeFacts> f0 = factsOf(nif);
+	// strip shapes: the source's triangle set is what the strip format defines (position parity, degenerate
+	// triangles skipped), decoded here independently of the library, so a conversion that triangulates strips
+	// differently cannot hide behind the same routine answering the "before" query
+	{
+		auto shapes = nif.GetShapes();
+		for (size_t i = 0; i < shapes.size() && i < f0.size(); i++) {
+			auto sd = dynamic_cast<NiTriStripsData*>(shapes[i]->GetGeomData());
+			if (!sd)
+				continue;
+			std::multiset<uint64_t> want;
+			for (auto& tr : refTrianglesOfStrips(sd->stripsInfo.points))
+				want.insert(triKey(tr));
+			bool oddRun = false;
+			for (auto& st : sd->stripsInfo.points)
+				if (st.size() == 4 && (st[0] == st[1] || st[0] == st[2]))
+					oddRun = true;
+			run.cls(oddRun ? "strips:leading-degenerate-triangle" : "strips:reference-decoded");
+			if (want != f0[i].tris) {
+				f0[i].tris = want;
+				run.cls("strips:library-answer-differs-from-reference");
+			}
+		}
+	}
 	std::vector<std::string> n0 = nodeFacts(nif);
 	bool skinned = false;
 	for (auto& f : f0)
